@@ -440,6 +440,7 @@ async fn run(case: &Case) -> Outcome {
     if live_stake * 5 >= total * 4 {
         out.label("live>=80%");
     }
+    out.trace = Some(switch.trace_hash());
     for nd in &nodes {
         nd.cancel.cancel();
         nd.task.abort();
